@@ -85,8 +85,7 @@ def sfitsV : VExpr → Nat → Bool → Bool
         && (match o with | .shr => decide (0 < W) && inRangeB W sg (bounds a) | _ => true)
     else sfitsV a W sg && sfitsV b W sg
   | .cond c a b, W, sg =>
-    sfitsV c (selfWidth c) (selfSigned c) && decide (0 < selfWidth c)
-      && inRangeB (selfWidth c) (selfSigned c) (bounds c) && sfitsV a W sg && sfitsV b W sg
+    sfitsV c (selfWidth c) (selfSigned c) && sfitsV a W sg && sfitsV b W sg
   | .psel a hi lo, W, sg =>
     sfitsV a (selfWidth a) (selfSigned a) && decide (hi < selfWidth a) && decide (lo ≤ hi)
       && sfitsAt (hi - lo + 1) W sg (0, p2 (hi - lo + 1) - 1)
@@ -106,9 +105,14 @@ end
 def spromOk (promoted : Bool) (e : Expr) : Bool :=
   !promoted || inRangeB (selfWidth (printE e).1) false (bounds (printE e).1)
 
+/-- Static `condOk`: same width on both sides, or the value is a non-negative number of the narrower width. -/
+def scondOk (c : Expr) : Bool :=
+  decide (selfWidth (printE c).1 = (bitsSign c).1) ||
+    inRangeB (min (selfWidth (printE c).1) (bitsSign c).1) false (bounds (printE c).1)
+
 mutual
 def sfitsP : Expr → Bool
-  | .const v w _ => decide (v.natAbs < 2 ^ w) && decide (0 < w)
+  | .const v w s => constOk v w s
   | .sig _ w _ => decide (0 < w)
   | .op1 .neg a => sfitsP a && spromOk (!(printE a).2) a
   | .op1 .not a => sfitsP a
@@ -117,10 +121,9 @@ def sfitsP : Expr → Bool
       (o.isShift || (spromOk ((printE b).2 && !(printE a).2) a && spromOk ((printE a).2 && !(printE b).2) b))
   | .mux c a b =>
     sfitsP c && sfitsP a && sfitsP b &&
-      spromOk ((printE b).2 && !(printE a).2) a && spromOk ((printE a).2 && !(printE b).2) b
+      spromOk ((printE b).2 && !(printE a).2) a && spromOk ((printE a).2 && !(printE b).2) b && scondOk c
   | .slice a lo hi =>
     sfitsP a && isSig a && decide (lo < hi) && decide (hi ≤ (bitsSign a).1)
-      && !(decide ((bitsSign a).1 = 1) && (bitsSign a).2)
   | .cat l => sfitsPList l
   | .rep a n => sfitsP a && decide ((bitsSign a).1 = selfWidth (printE a).1) && decide (0 < n)
 def sfitsPList : List Expr → Bool
